@@ -16,5 +16,8 @@ CONSTANTS
   WksCheck = FALSE
   SnlClean = FALSE
   KeepDead = FALSE
+  Miu <- MiuAB
+  Lens = {1}
+  HdrInMiu = FALSE
 CONSTRAINT Done
 CHECK_DEADLOCK FALSE
